@@ -88,7 +88,7 @@ func (s *Server) cmdSetHook(msg *Message) (
 				return NOMessage, d, errInvalidNumberOfArguments
 			}
 			v, err := strconv.ParseFloat(s, 64)
-			if err != nil {
+			if err != nil || v != v { // (NaN)
 				return NOMessage, d, errInvalidArgument(s)
 			}
 			expires = v
